@@ -8,6 +8,7 @@ RefResolutionError and (Draft 3) UnknownType.
 """
 import itertools
 import json
+import os
 import signal
 import traceback
 
@@ -66,6 +67,8 @@ def uplus(tier):
          -int("9" * 400), "", "a", "ab", "\U0001F600", [], [1], [1, 1], [1, "a"], [[], {}], [1, 2, 3],
          {}, {"a": 1}, {"a": 1, "b": 2}, {"b": []}, {"a": {"a": 1}}, {"": 0}, [HUGE, 1.5], {"a": HUGE},
          deep(10), [True, 1, 1.0], {"a": None, "b": "x"},
+         # sizes beyond anything a message helper might special-case
+         dict(("k%d" % i, i) for i in range(25)), list(range(25)), "a" * 5000, dict(("p%d" % i, "v") for i in range(120)),
          # characters that mean something to %-formatting, str.format and reprs
          "100%", "%s %(a)s %d", "{0} {a} {", "\\ ' \" \n", {"50%": 1, "{x}": 2, "%(k)s": 3}, ["%", "{}"]]
     if tier == "thorough":
@@ -284,6 +287,28 @@ def site(exc):
 ENTRY = ("is_valid", "iter_errors", "validate", "module_validate", "iter_errors+FormatChecker")
 
 
+def cli_entry(d, S, x):
+    """The command line as one more entry point (in-process, files in a private scratch directory): whatever the
+    instance, it ends with an exit status; the errors it prints go through str.format with the pretty output."""
+    import io
+    import json as _json
+    import shutil
+    import tempfile
+    from jsonschema import cli
+    root = tempfile.mkdtemp(prefix="c03-cli.", dir="/dev/shm" if os.path.isdir("/dev/shm") else None)
+    try:
+        with open(os.path.join(root, "s.json"), "w") as f:
+            _json.dump(S, f)
+        with open(os.path.join(root, "i.json"), "w") as f:
+            _json.dump(x, f)
+        for out in ("plain", "pretty"):
+            args = cli.parse_args(["-i", os.path.join(root, "i.json"), "-V", "Draft%dValidator" % d, "--output", out,
+                                   os.path.join(root, "s.json")])
+            cli.run(args, stdout=io.StringIO(), stderr=io.StringIO())
+    finally:
+        shutil.rmtree(root, ignore_errors=True)
+
+
 def render(e, depth=0):
     """A reported error can be shown: str / repr / unicode message / json_path / paths are total too."""
     str(e), repr(e), e.message, e.json_path, list(e.absolute_path), list(e.absolute_schema_path)
@@ -309,6 +334,8 @@ def execute(d, S, x, entry):
             jsonschema.validate(x, S, cls=cls)
         except exceptions.ValidationError as e:
             render(e)
+    elif entry == "cli":
+        cli_entry(d, S, x)
     else:
         list(cls(S, format_checker=FormatChecker()).iter_errors(x))
 
@@ -396,6 +423,11 @@ def run_history(d, S, hist):
                 it = v.iter_errors(REUSE_INSTANCES[xi])
                 next(it, None)
                 held.append(it)
+            elif op == "lend-store":
+                # the caller builds a second resolver (for another schema without id) from this resolver's store
+                other = {"definitions": {"a": [{"type": "null"}, 1], "nope": 7}, "frag": "text", "items": [{"type": "null"}], "x": 0}
+                r2 = jsonschema.RefResolver.from_schema(other, id_of=_e1.CLS[d].ID_OF, store=v.resolver.store)
+                r2.resolve("#/x")            # the second resolver is used (never validated with: `other` is no schema)
             elif op == "resume":
                 if held:
                     list(held.pop(0))
@@ -454,6 +486,19 @@ def run_reuse(unit, ctx):
                                      "case": {"kind": "reuse", "draft": d, "schema": S,
                                               "history": [[op, REUSE_INSTANCES[xi]] for op, xi in hist[:r[0] + 1]]},
                                      "detail": {"exception": r[1], "where": r[2], "failing_call": r[0]}})
+        # use, lend the store to a second resolver, use again
+        for first in ops[::2]:
+            for last in ops:
+                hist = (first, ("lend-store", 3), last)
+                ev += 1
+                r = run_history(d, S, hist)
+                key = "ok" if r is None else r[1]
+                outcomes[key] = outcomes.get(key, 0) + 1
+                if r is not None:
+                    viol.append({"signature": "C03|reuse|store-lent-to-another-resolver|%s|%s" % (r[1], r[2]), "size": len(str(S)) + 150,
+                                 "case": {"kind": "reuse", "draft": d, "schema": S,
+                                          "history": [[op, REUSE_INSTANCES[xi]] for op, xi in hist[:r[0] + 1]]},
+                                 "detail": {"exception": r[1], "where": r[2], "failing_call": r[0]}})
         if not samples:
             samples.append({"kind": "reuse", "draft": d, "schema": S, "history": [[op, REUSE_INSTANCES[xi]] for op, xi in ops[:2]]})
     return {"evaluations": ev, "nontrivial": ev, "violations": viol, "samples": samples, "outcomes": outcomes,
@@ -493,7 +538,7 @@ def run_multi(unit, ctx):
         nsch += 1
         for x0 in MULTI_INSTANCES:
             x = wi(x0)
-            for entry in ENTRY:
+            for entry in (ENTRY + ("cli",) if i % 4 == 0 else ENTRY):
                 if entry.endswith("FormatChecker") and "format" not in json.dumps(S):
                     continue
                 ev += 1
@@ -784,6 +829,10 @@ def replay(case, ctx):
                     it = v.iter_errors(x)
                     next(it, None)
                     held.append(it)
+                elif op == "lend-store":
+                    other = {"definitions": {"a": [{"type": "null"}, 1], "nope": 7}, "frag": "text", "items": [{"type": "null"}], "x": 0}
+                    r2 = jsonschema.RefResolver.from_schema(other, id_of=_e1.CLS[d].ID_OF, store=v.resolver.store)
+                    r2.resolve("#/x")
                 elif op == "resume":
                     if held:
                         list(held.pop(0))
